@@ -70,3 +70,8 @@ pub assume_specification [<[u8]>::is_ascii] (s: &[u8]) -> (b: bool)
 pub struct ExUtf8Error(std::str::Utf8Error);
 pub assume_specification<'a> [std::str::from_utf8] (v: &'a [u8]) -> (r: Result<&'a str, std::str::Utf8Error>)
     ensures r matches Ok(s) ==> utf8(s@) == v@, r is Err ==> forall|s: Seq<char>| utf8(s) != v@;
+
+// `s.chars().count()`: made callable with NOTHING assumed about the result (no ensures clause), so that code which
+// starts to use a character count where a byte length is required is decided (its contract fails) instead of
+// stopping the unit with "not supported".
+pub assume_specification<'a>[ core::str::Chars::<'a>::count ](it: core::str::Chars<'a>) -> (n: usize);
